@@ -73,6 +73,12 @@ CHECKS = {
     "C19": {"engine": "pylane", "technique": "runtime monitoring at the FFI boundary: real CPython extension in child interpreters vs library-as-a-process, type-exact value monitor, exception-type monitor, call-count monitor for supplied (de)serialisers",
             "text": "The extension built from the working tree plus the working tree's __init__.py are driven in child interpreters through both entry points and every combination of omitted / supplied optional arguments; results are compared type-exactly with json.loads of the library's answer, every failure must be exactly ValueError, tagging wrappers verify the (de)serialisers are used exactly as specified, and a progress record makes an interpreter crash attributable.",
             "note": "Python's own json module is trusted for the (de)serialisation half; objects are those json.loads can produce plus non-finite floats and big integers."},
+    "C01": {"engine": "jlmon + pylane", "technique": "runtime monitoring: panic / abnormal-termination / CPU-budget monitors over hostile workloads in debug, release and overflow-checking builds; AddressSanitizer and Miri lanes; exit-status and exception-type monitors on the real CLI and CPython extension",
+            "text": "Evaluation and every public helper are driven with values aimed at panics (64-bit extremes in every index-taking position, results beyond 2^63 and beyond finite, multi-byte strings, the deepest documents the text boundary delivers, over-limit nesting at the CLI / Python boundary) under catch_unwind in three build profiles every run; shards are separate processes so that aborts and stack overflows are observed as abnormal termination and pinned to the in-flight call by a trace re-run; thorough adds ASan and Miri. The property quantifies over operand values x operators x profiles x entry points, which is exactly what such a matrix covers and a sample cannot.",
+            "note": "'Never hangs' is restated as a per-call CPU-time bound on bounded documents; programmatically built Values deeper than 128 levels are outside the stated domain."},
+    "C17": {"engine": "jlmon + pylane", "technique": "runtime monitoring: history monitor against isolated results, input-immutability monitor, heap-conservation and allocation-determinism monitor (counting allocator), concurrent-result and log-multiset monitors under native stress, ThreadSanitizer and Miri seeds; strace deny-list; fresh-process differential",
+            "text": "Each call's result and log trace in long randomised histories and in concurrent rounds on shared inputs is compared with its isolated result; a counting allocator makes semantically invisible state (caches, memos, leaks) observable; ThreadSanitizer and Miri's race detector watch the same concurrent workload; strace shows that the only externally visible effect of the command is writing to stdout / stderr.",
+            "note": "Schedules are sampled (distinct completion orders, TSan runs and Miri seeds are reported), never enumerated."},
 }
 
 NOT_APPLICABLE = {}
